@@ -731,7 +731,6 @@ func anchorOverlay(abs string, cfg Config) (map[string][]byte, []anchorRename, e
 	return overlay, uniq, nil
 }
 
-
 // anonU: the tuple without names, with in-package named types whose underlying type is not a struct
 // replaced by that underlying type (one level, also under pointers and slices).
 func anonU(pkg *types.Package, t *types.Tuple) *types.Tuple {
